@@ -528,13 +528,22 @@ func (r *Run) CheckNoNewFilter(rule, name string, scope Scope) {
 			}
 		}
 		refN := r.normInv(ref)
-		for sig, c := range r.normInv(scope.filterInv(r.G.InventoryOf(fd))) {
-			if !strings.HasPrefix(sig, "skip ") {
-				continue
+		// only pure filters count: `if c { X; continue }; Y` is the if/else `if c { X } else { Y }`
+		pure := map[string]int{}
+		for _, a := range r.G.FlatAtoms(fd) {
+			if a.Skip && a.PureSkip {
+				pure[r.normRenamed(a.Sig())]++
 			}
+		}
+		sigs := []string{}
+		for sig := range pure {
+			sigs = append(sigs, sig)
+		}
+		sort.Strings(sigs)
+		for _, sig := range sigs {
 			n++
 			if refN[sig] == nil {
-				r.Fail(rule, k+" :: "+sig, r.Prog.RelPos(fd.Decl.Pos()), fmt.Sprintf("loop filter `%s` (×%d) does not exist in the reference: the loop now skips elements it used to process", sig, c.Total))
+				r.Fail(rule, k+" :: "+sig, r.Prog.RelPos(fd.Decl.Pos()), fmt.Sprintf("loop filter `%s` (×%d) does not exist in the reference: the loop now skips elements it used to process", sig, pure[sig]))
 			}
 		}
 		if known {
